@@ -3,3 +3,6 @@ import BevySyncModel.Props.C11
 import BevySyncModel.Props.C12
 import BevySyncModel.Props.C13
 import BevySyncModel.Props.C14
+import BevySyncModel.Props.C02
+import BevySyncModel.Props.C09
+import BevySyncModel.Props.C10
